@@ -81,25 +81,23 @@ theorem toNat_ofNat_lt {n : Nat} (h : n < 256) : (UInt8.ofNat n).toNat = n := by
 
 /-- a scalar value (not a surrogate, ≤ U+10FFFF) encodes to a valid UTF-8 string -/
 theorem decodeOne_encodeOne {c : Nat} (h1 : c ≤ 0x10FFFF) (h2 : ¬ (0xD800 ≤ c ∧ c ≤ 0xDFFF)) :
-    ∃ cp, utf8DecodeOne (utf8EncodeOne c) = some (cp, []) := by
+    (utf8DecodeOne (utf8EncodeOne c)).map Prod.snd = some [] := by
   unfold utf8EncodeOne
   split
   · rename_i h
-    exact ⟨_, by simp [utf8DecodeOne, toNat_ofNat_lt (show c < 256 by omega), h]⟩
+    simp [utf8DecodeOne, toNat_ofNat_lt (show c < 256 by omega), h]
   split
   · rename_i h0 h
     have e0 := toNat_ofNat_lt (show 0xC0 + c / 64 < 256 by omega)
     have e1 := toNat_ofNat_lt (show 0x80 + c % 64 < 256 by omega)
-    refine ⟨_, ?_⟩
     simp only [utf8DecodeOne, e0, e1, isCont]
     rw [if_neg (by omega), if_neg (by omega), if_pos (by omega)]
-    simp only [show (0x80 + c % 64) / 64 = 2 by omega, decide_true, if_true]
+    simp only [show (0x80 + c % 64) / 64 = 2 by omega, decide_true, if_true, Option.map_some]
   split
   · rename_i h0 h00 h
     have e0 := toNat_ofNat_lt (show 0xE0 + c / 4096 < 256 by omega)
     have e1 := toNat_ofNat_lt (show 0x80 + c / 64 % 64 < 256 by omega)
     have e2 := toNat_ofNat_lt (show 0x80 + c % 64 < 256 by omega)
-    refine ⟨_, ?_⟩
     simp only [utf8DecodeOne, e0, e1, e2, isCont]
     rw [if_neg (by omega), if_neg (by omega), if_neg (by omega), if_pos (by omega)]
     simp only [show (0x80 + c / 64 % 64) / 64 = 2 by omega, show (0x80 + c % 64) / 64 = 2 by omega, decide_true,
@@ -107,7 +105,7 @@ theorem decodeOne_encodeOne {c : Nat} (h1 : c ≤ 0x10FFFF) (h2 : ¬ (0xD800 ≤
     have hcp : (0xE0 + c / 4096 - 0xE0) * 4096 + (0x80 + c / 64 % 64 - 0x80) * 64 + (0x80 + c % 64 - 0x80) = c := by
       omega
     rw [hcp]
-    rw [if_neg]
+    rw [if_neg, Option.map_some]
     simp only [Bool.or_eq_true, Bool.and_eq_true, decide_eq_true_eq]
     omega
   · rename_i h0 h00 h000
@@ -115,7 +113,6 @@ theorem decodeOne_encodeOne {c : Nat} (h1 : c ≤ 0x10FFFF) (h2 : ¬ (0xD800 ≤
     have e1 := toNat_ofNat_lt (show 0x80 + c / 4096 % 64 < 256 by omega)
     have e2 := toNat_ofNat_lt (show 0x80 + c / 64 % 64 < 256 by omega)
     have e3 := toNat_ofNat_lt (show 0x80 + c % 64 < 256 by omega)
-    refine ⟨_, ?_⟩
     simp only [utf8DecodeOne, e0, e1, e2, e3, isCont]
     rw [if_neg (by omega), if_neg (by omega), if_neg (by omega), if_neg (by omega), if_pos (by omega)]
     simp only [show (0x80 + c / 4096 % 64) / 64 = 2 by omega, show (0x80 + c / 64 % 64) / 64 = 2 by omega,
@@ -123,13 +120,17 @@ theorem decodeOne_encodeOne {c : Nat} (h1 : c ≤ 0x10FFFF) (h2 : ¬ (0xD800 ≤
     have hcp : (0xF0 + c / 262144 - 0xF0) * 262144 + (0x80 + c / 4096 % 64 - 0x80) * 4096 +
         (0x80 + c / 64 % 64 - 0x80) * 64 + (0x80 + c % 64 - 0x80) = c := by omega
     rw [hcp]
-    rw [if_neg]
+    rw [if_neg, Option.map_some]
     simp only [Bool.or_eq_true, decide_eq_true_eq]
     omega
 
 theorem utf8Valid_encodeOne {c : Nat} (h1 : c ≤ 0x10FFFF) (h2 : ¬ (0xD800 ≤ c ∧ c ≤ 0xDFFF)) :
     utf8Valid (utf8EncodeOne c) = true := by
-  obtain ⟨cp, h⟩ := decodeOne_encodeOne h1 h2
+  have h' := decodeOne_encodeOne h1 h2
+  obtain ⟨cp, h⟩ : ∃ cp, utf8DecodeOne (utf8EncodeOne c) = some (cp, []) := by
+    cases hd : utf8DecodeOne (utf8EncodeOne c) with
+    | none => simp [hd] at h'
+    | some p => obtain ⟨cp, r⟩ := p; simp [hd] at h'; subst h'; exact ⟨cp, rfl⟩
   have hl := decodeOne_length h
   unfold utf8Valid utf8Decode
   cases hn : (utf8EncodeOne c).length with
@@ -140,6 +141,196 @@ theorem utf8Valid_encodeOne {c : Nat} (h1 : c ≤ 0x10FFFF) (h2 : ¬ (0xD800 ≤
     | cons b0 rest =>
       rw [he] at h
       simp [utf8DecodeFuel, h]
-      cases k <;> simp [utf8DecodeFuel]
+
+
+/-! ### one decoding step -/
+
+theorem utf8Valid_step {b0 : UInt8} {rest : Bytes} (h : utf8Valid (b0 :: rest) = true) :
+    ∃ cp r, utf8DecodeOne (b0 :: rest) = some (cp, r) ∧ utf8Valid r = true := by
+  unfold utf8Valid utf8Decode at h
+  simp only [List.length_cons, utf8DecodeFuel] at h
+  cases hd : utf8DecodeOne (b0 :: rest) with
+  | none => simp [hd] at h
+  | some p =>
+    obtain ⟨cp, r⟩ := p
+    simp only [hd, Option.isSome_map] at h
+    have hl := decodeOne_length hd
+    refine ⟨cp, r, rfl, ?_⟩
+    unfold utf8Valid utf8Decode
+    exact decodeFuel_isSome_mono rest.length r (by simp at hl; omega) h _ (Nat.le_refl _)
+
+theorem utf8Valid_of_step {b : Bytes} {cp : Nat} {r : Bytes} (hd : utf8DecodeOne b = some (cp, r))
+    (hr : utf8Valid r = true) : utf8Valid b = true := by
+  have hl := decodeOne_length hd
+  unfold utf8Valid utf8Decode at hr ⊢
+  cases hb : b.length with
+  | zero => rw [hb] at hl; simp at hl
+  | succ k =>
+    cases b with
+    | nil => simp at hb
+    | cons b0 rest =>
+      simp only [utf8DecodeFuel, hd, Option.isSome_map]
+      exact decodeFuel_isSome_mono r.length r (Nat.le_refl _) hr k (by simp at hb hl; omega)
+
+/-! ### `unescape` keeps UTF-8 valid -/
+
+theorem radixVal_ascii (radix : Nat) (dig : UInt8 → Option Nat) (hdig : ∀ c, dig c ≠ none → c.toNat < 128) :
+    ∀ (bs : Bytes) (acc v : Nat), radixVal radix dig bs acc = some v → ∀ c ∈ bs, c.toNat < 128
+  | [], _, _, _, c, hc => by simp at hc
+  | b :: bs, acc, v, h, c, hc => by
+    simp only [radixVal] at h
+    cases hd : dig b with
+    | none => simp [hd] at h
+    | some d =>
+      simp only [hd] at h
+      rcases List.mem_cons.mp hc with hc | hc
+      · subst hc; exact hdig c (by simp [hd])
+      · exact radixVal_ascii radix dig hdig bs _ v h c hc
+
+theorem hexDigit_ascii (c : UInt8) (h : hexDigitVal c ≠ none) : c.toNat < 128 := by
+  unfold hexDigitVal at h
+  split at h
+  · omega
+  split at h
+  · omega
+  split at h
+  · omega
+  · exact absurd rfl h
+
+theorem decDigit_ascii (c : UInt8) (h : decDigitVal c ≠ none) : c.toNat < 128 := by
+  unfold decDigitVal at h
+  split at h
+  · omega
+  · exact absurd rfl h
+
+theorem charRef_ok {num r : Bytes} (h : charRef num = some r) : (∀ c ∈ num, c.toNat < 128) ∧ utf8Valid r = true := by
+  unfold charRef at h
+  simp only at h
+  split at h
+  · cases h
+  · rename_i c hcode
+    have hval : utf8Valid r = true := by
+      split at h
+      · cases h
+      split at h
+      · cases h
+      split at h
+      · cases h
+      · rename_i h0 h1 h2
+        cases h
+        exact utf8Valid_encodeOne (by omega) h2
+    refine ⟨?_, hval⟩
+    split at hcode
+    · rename_i hex
+      split at hcode
+      · cases hcode
+      · intro x hx
+        rcases List.mem_cons.mp hx with hx | hx
+        · subst hx; decide
+        · exact radixVal_ascii 16 hexDigitVal hexDigit_ascii hex 0 c hcode x hx
+    · split at hcode
+      · cases hcode
+      · exact radixVal_ascii 10 decDigitVal decDigit_ascii num 0 c hcode
+
+theorem resolveEntity_ok {pat r : Bytes} (h : resolveEntity pat = some r) :
+    (∀ c ∈ pat, c.toNat < 128) ∧ utf8Valid r = true := by
+  unfold resolveEntity at h
+  split at h
+  · rename_i num
+    obtain ⟨h1, h2⟩ := charRef_ok h
+    refine ⟨?_, h2⟩
+    intro c hc
+    rcases List.mem_cons.mp hc with hc | hc
+    · subst hc; decide
+    · exact h1 c hc
+  all_goals first
+    | (cases h; exact ⟨by decide, by decide⟩)
+    | cases h
+
+/-- what a successful entity reference consumed -/
+theorem unescapeEnt_ok : ∀ (cs acc a : Bytes), unescapeEnt acc cs = some a →
+    ∃ name cs' r a', cs = name ++ cSemi :: cs' ∧ resolveEntity (acc.reverse ++ name) = some r ∧
+      unescape cs' = some a' ∧ a = r ++ a'
+  | [], _, _, h => by simp [unescapeEnt] at h
+  | c :: cs, acc, a, h => by
+    simp only [unescapeEnt] at h
+    split at h
+    · rename_i hc
+      subst hc
+      cases hr : resolveEntity acc.reverse with
+      | none => simp [hr] at h
+      | some r =>
+        simp only [hr, Option.map_eq_some_iff] at h
+        obtain ⟨a', ha', he⟩ := h
+        exact ⟨[], cs, r, a', by simp, by simpa using hr, ha', he.symm⟩
+    · split at h
+      · cases h
+      · obtain ⟨name, cs', r, a', h1, h2, h3, h4⟩ := unescapeEnt_ok cs (c :: acc) a h
+        refine ⟨c :: name, cs', r, a', by simp [h1], ?_, h3, h4⟩
+        simpa using h2
+
+/-- bytes other than `&` pass through `unescape` -/
+theorem unescape_passthrough : ∀ (p x : Bytes), (∀ c ∈ p, c ≠ cAmp) → unescape (p ++ x) = (unescape x).map (p ++ ·)
+  | [], x, _ => by simp
+  | c :: cs, x, h => by
+    rw [List.cons_append, unescape_cons_of_ne_amp (h c (by simp)),
+      unescape_passthrough cs x (fun y hy => h y (by simp [hy]))]
+    cases unescape x <;> simp
+
+theorem unescape_valid : ∀ (n : Nat) (raw a : Bytes), raw.length ≤ n → utf8Valid raw = true → unescape raw = some a →
+    utf8Valid a = true
+  | _, [], a, _, _, h => by simp [unescape] at h; subst h; decide
+  | 0, _ :: _, _, hn, _, _ => by simp at hn
+  | k + 1, c :: cs, a, hn, hv, h => by
+    by_cases hc : c = cAmp
+    · subst hc
+      simp only [unescape, if_true] at h
+      obtain ⟨name, cs', r, a', h1, h2, h3, h4⟩ := unescapeEnt_ok cs [] a h
+      simp only [List.reverse_nil, List.nil_append] at h2
+      obtain ⟨hname, hr⟩ := resolveEntity_ok h2
+      subst h1 h4
+      have hE : ∀ x ∈ (cAmp :: (name ++ [cSemi]) : Bytes), x.toNat < 128 := by
+        intro x hx
+        simp only [List.mem_cons, List.mem_append, List.not_mem_nil, or_false] at hx
+        rcases hx with hx | hx | hx
+        · subst hx; decide
+        · exact hname x hx
+        · subst hx; decide
+      have hcs' : utf8Valid cs' = true := by
+        apply utf8Valid_drop_ascii hE
+        simpa using hv
+      exact utf8Valid_append hr
+        (unescape_valid k cs' a' (by simp at hn ⊢; omega) hcs' h3)
+    · obtain ⟨cp, r, hd, hr⟩ := utf8Valid_step hv
+      have hl := decodeOne_length hd
+      rcases decodeOne_shape hd with ⟨hascii, hrr⟩ | ⟨hhigh, mid, hrest, hmid, hsame⟩
+      · subst hrr
+        rw [unescape_cons_of_ne_amp hc, Option.map_eq_some_iff] at h
+        obtain ⟨a', ha', he⟩ := h
+        subst he
+        have := unescape_valid k r a' (by simpa using hn) hr ha'
+        exact utf8Valid_append (a := [c]) (utf8Valid_ascii (by
+          intro x hx; simp only [List.mem_singleton] at hx; subst hx; exact hascii)) this
+      · subst hrest
+        have hp : ∀ x ∈ (c :: mid : Bytes), x ≠ cAmp := by
+          intro x hx
+          rcases List.mem_cons.mp hx with hx | hx
+          · subst hx; exact hc
+          · intro hxa; subst hxa; have := hmid _ hx; simp [cAmp] at this
+        have he : c :: (mid ++ r) = (c :: mid) ++ r := rfl
+        rw [he, unescape_passthrough _ _ hp, Option.map_eq_some_iff] at h
+        obtain ⟨a', ha', hea⟩ := h
+        subst hea
+        have hva := unescape_valid k r a' (by simp at hn ⊢; omega) hr ha'
+        have hhead : utf8Valid (c :: mid) = true := by
+          have := hsame []
+          simp only [List.append_nil] at this
+          exact utf8Valid_of_step this (by decide)
+        exact utf8Valid_append hhead hva
+
+/-- **`unescape` of a valid UTF-8 string is a valid UTF-8 string** -/
+theorem utf8Valid_unescape {raw a : Bytes} (hv : utf8Valid raw = true) (h : unescape raw = some a) :
+    utf8Valid a = true :=
+  unescape_valid raw.length raw a (Nat.le_refl _) hv h
 
 end S3V.Xml
